@@ -112,6 +112,8 @@ type FnCtx struct {
 	qn          int
 	keySorts    map[any]string
 	keyObj      map[heapKey]*types.Var
+	dry         int
+	owned       []ownedRef
 	specDepth   int
 	qdepth      int
 	keyTypes    map[any]types.Type
@@ -230,7 +232,7 @@ func (fc *FnCtx) assert(st *State, name, class string, t Term, pos token.Pos, te
 	if st.dead() {
 		return
 	}
-	if fc.pass == 2 {
+	if fc.pass == 2 && fc.dry == 0 {
 		o := &Obligation{Name: fc.name + "/" + name, Class: class, Func: fc.name, Prefix: len(fc.cmds), Goal: tAnd(st.live, tNot(t)).S, Pos: fc.posStr(pos), Text: text, fc: fc}
 		var pnames []string
 		for n := range fc.paramInit {
@@ -246,7 +248,7 @@ func (fc *FnCtx) assert(st *State, name, class string, t Term, pos token.Pos, te
 }
 
 func (fc *FnCtx) cover(st *State, name string, pos token.Pos) {
-	if fc.pass != 2 {
+	if fc.pass != 2 || fc.dry > 0 {
 		return
 	}
 	o := &Obligation{Name: fc.name + "/" + name, Class: "cover", Func: fc.name, Prefix: len(fc.cmds), Goal: st.live.S, ExpectSat: true, Pos: fc.posStr(pos), fc: fc}
